@@ -78,15 +78,17 @@ structure Env where
 /-- `f`: `(totalVotingPower - 1) / 3` on Go's 64-bit `uint` (wraps for 0). -/
 def fU (n : UInt64) : UInt64 := (n - 1) / 3
 
-/-- `q`: `d := n*2; q := d/3; if d%3 > 0 { q++ }` on Go's 64-bit `uint` (the product wraps). -/
-def qU (n : UInt64) : UInt64 :=
+/-- `q`: `totalVotingPower - totalVotingPower/3` on Go's 64-bit `uint` (= `ceil(2N/3)`, cannot
+wrap; the code since repo commit 487454a). -/
+def qU (n : UInt64) : UInt64 := n - n / 3
+
+/-- `q` as it was before 487454a: `d := n*2; q := d/3; if d%3 > 0 { q++ }` — the product wraps for
+`n ≥ 2^63` (kept for the regression witness `qUOld_wraps`). -/
+def qUOld (n : UInt64) : UInt64 :=
   let d := n * 2
   let q := d / 3
   let r := d % 3
   if r > 0 then q + 1 else q
-
-/-- Overflow-free quorum formula (`proposed-fixes/C12-quorum-overflow.diff`): `n - n/3`. -/
-def qUFix (n : UInt64) : UInt64 := n - n / 3
 
 /-- The same formulas over unbounded naturals (what the code computes when nothing wraps). -/
 def fN (n : Nat) : Nat := (n - 1) / 3
@@ -603,6 +605,27 @@ def Machine.processTimeout (env : Env) (m : Machine) (s : Step) (h : Height) (r 
   let (m', acts) := m.onTimeout env s h r
   m'.processLoop env acts none
 
+/-- `ProcessSync`: `ProcessProposal` followed by `ProcessPrecommit` of every precommit, actions
+concatenated. -/
+def Machine.processSyncVotes (env : Env) : Machine → List Action → List Vote → Machine × List Action
+  | m, acc, [] => (m, acc)
+  | m, acc, v :: rest =>
+    let (m', a) := m.processPrecommit env v
+    Machine.processSyncVotes env m' (acc ++ a) rest
+
+def Machine.processSync (env : Env) (m : Machine) (p : Proposal) (vs : List Vote) :
+    Machine × List Action :=
+  let (m1, a1) := m.processProposal env p
+  Machine.processSyncVotes env m1 a1 vs
+
+/-- `ProcessWAL`: dispatch on the entry type (`wal.Start` starts round 0). -/
+def Machine.processWAL (env : Env) (m : Machine) : WalEntry → Machine × List Action
+  | .start _ => m.processStart env 0
+  | .proposal p => m.processProposal env p
+  | .prevote v => m.processPrevote env v
+  | .precommit v => m.processPrecommit env v
+  | .timeout s h r => m.processTimeout env s h r
+
 /-! ## inputs as data (for sequences of inputs) -/
 
 inductive Input
@@ -611,6 +634,8 @@ inductive Input
   | prevote (v : Vote)
   | precommit (v : Vote)
   | timeout (s : Step) (h : Height) (r : Round)
+  | sync (p : Proposal) (vs : List Vote)
+  | wal (e : WalEntry)
   deriving Repr
 
 def Machine.step (env : Env) (m : Machine) : Input → Machine × List Action
@@ -619,6 +644,8 @@ def Machine.step (env : Env) (m : Machine) : Input → Machine × List Action
   | .prevote v => m.processPrevote env v
   | .precommit v => m.processPrecommit env v
   | .timeout s h r => m.processTimeout env s h r
+  | .sync p vs => m.processSync env p vs
+  | .wal e => m.processWAL env e
 
 /-- Run a sequence of inputs; returns the final machine and all actions in order. -/
 def Machine.run (env : Env) (m : Machine) : List Input → Machine × List Action
